@@ -22,8 +22,8 @@ CHECKS.update({
   'technique': 'Verus ghost-counter invariants on the analyzer tiers + Kani full-domain harnesses on the evaluator operators',
  },
  'C08': {
-  'text': 'Partial proof of the suspend/resume mechanism: rewind_before_token(INPUT) lands on the nearest preceding INPUT token of the same line, strictly before the cursor, and changes nothing else (its panic! is discharged by the precondition that such a token exists); rewind_program_and_await_input then leaves the interpreter AwaitingInput; provide_input requires AwaitingInput, stores the reply and resumes Running, touching nothing else; coercion of a reply item: number into numeric name, text into numeric name => DATA TYPE MISMATCH (the REENTER path), $ name accepts both (Kani, bounded name length).',
-  'note': 'evaluate_input_statement and IF/ELSE interplay are outside both verifiers (undecided).',
+  'text': 'Partial proof of the suspend/resume mechanism on the real code: evaluate_input_statement without a pending reply rewinds to its own INPUT token, awaits input and has changed nothing else; with a rejected reply it appends REENTER (and no EXTRA IGNORED) and awaits input again; a reply is consumed once, parsed whole, surplus = unread text; rewind_before_token(INPUT) lands on the nearest preceding INPUT token of the same line, strictly before the cursor, and changes nothing else (its panic! is discharged by the precondition that such a token exists); rewind_program_and_await_input then leaves the interpreter AwaitingInput; provide_input requires AwaitingInput, stores the reply and resumes Running, touching nothing else; coercion of a reply item: number into numeric name, text into numeric name => DATA TYPE MISMATCH (the REENTER path), $ name accepts both (Kani, bounded name length).',
+  'note': 'The IF/ELSE interplay is not decided (the suite itself requires UNEXPECTED TOKEN for an ELSE reached as a statement). Subscript evaluation of the INPUT target is an assumed contract (warnings only).',
   'technique': 'Verus loop invariant + decreases on the rewind, typestate contracts; Kani harness on the coercion table',
  },
  'C19': {
@@ -42,12 +42,12 @@ CHECKS.update({
   'technique': 'Verus functional contract + inductive lemma on LineCruncher',
  },
  'C02': {
-  'text': 'Partial. Proved over the full domain (loop-free harnesses over all pairs of doubles / all operand kinds, on the real functions): the kind and error rule of all 13 binary and 3 unary operators (number op number => number; any string operand of + - * / ^ or unary minus => TYPE MISMATCH; mixed comparison => TYPE MISMATCH; / by +0 or -0 => DIVISION BY ZERO; AND/OR/NOT total), bit-exact values of + - unary+- and of the six numeric comparisons (1/0), truthiness (non-zero incl. NaN, non-empty) and 1/0 encoding of AND/OR/NOT, and the token->operator tables. Bounded stand-ins (never counted as proved): string comparisons for lengths <= 2, * and / values on small integers. Precedence/associativity, ABS/INT and PRINT formatting are not decided by this family here.',
+  'text': 'Partial. Proved over the full domain (loop-free harnesses over all pairs of doubles / all operand kinds, on the real functions): the kind and error rule of all 13 binary and 3 unary operators (number op number => number; any string operand of + - * / ^ or unary minus => TYPE MISMATCH; mixed comparison => TYPE MISMATCH; / by +0 or -0 => DIVISION BY ZERO; AND/OR/NOT total), bit-exact values of + - unary+- and of the six numeric comparisons (1/0), truthiness (non-zero incl. NaN, non-empty) and 1/0 encoding of AND/OR/NOT, and the token->operator tables. Bounded stand-ins (never counted as proved): string comparisons for lengths <= 2, * and / values on small integers. Precedence is decided as maximal munch on the real evaluator tiers (Verus): each tier returns only in front of a token that is not a binary operator of its own or a tighter level, with the level table taken from the property. Value-level associativity, ABS/INT values and PRINT formatting are not decided.',
   'note': 'Trusted: CBMC IEEE-754 model; CBMC NaN-on-arithmetic sanity checks are ignored (NaN is a legal BASIC value); Backtrace::capture stubbed (diagnostics only); powf stubbed to an arbitrary double for the kind rule.',
   'technique': 'Kani loop-free full-domain harnesses on the real operator functions; Verus frame contracts on the real evaluator tiers',
  },
  'C01': {
-  'text': 'Partial proof. Decided for all inputs/histories: (a) the representation invariant "every stored location (current, breakpoint, every stack frame, every loop, every function definition) names an existing line, both stacks <= 32" is preserved by every Program mutator under contract (Verus), which discharges the only unwrap on a line lookup (tokens_for_line), the expect()s of the function-call path and the panic! in rewind_before_token as preconditions; (b) arithmetic safety of every function under contract (token cursor increments, ProgramLines::after for every u64, Rng::random for every seed - Kani, complete); (c) error values carry a location (populate_error_location). Not decided: panic-freedom of the tokenizer, DATA parser and statement/expression evaluators, native stack depth.',
+  'text': 'Partial proof. Decided for all inputs/histories: (a) the representation invariant "every stored location (current, breakpoint, every stack frame, every loop, every function definition) names an existing line, both stacks <= 32" is preserved by every Program mutator under contract (Verus), which discharges the only unwrap on a line lookup (tokens_for_line), the expect()s of the function-call path and the panic! in rewind_before_token as preconditions; (b) arithmetic safety of every function under contract (token cursor increments, ProgramLines::after for every u64, Rng::random for every seed - Kani, complete); (c) error values carry a location (populate_error_location). (d) the real statement and expression evaluators keep the invariant and contain no reachable panic (casts, unwraps, data[0] under the non-empty-reply fact) apart from four assumed leaf contracts. Not decided: string-literal / numeral / REM / DATA matchers, the DATA item parser, native stack depth.',
   'note': 'Proof-level for the listed functions only; the evidence lists functions under contract, assumed callees (external_body) and undecided clauses. Trusted: vstd, assumed std specs (BTreeSet first/range/iter, Option::copied), derived Clone/PartialEq/Default of Token/Symbol/ProgramLocation are structural.',
   'technique': 'Verus inductive invariant over Program mutators (verbatim extraction) + Kani function contract on Rng',
  },
@@ -62,8 +62,8 @@ CHECKS.update({
   'technique': 'Verus contracts + exec-form lemmas over the contracts of Program',
  },
  'C09': {
-  'text': 'Partial proof: every token-cursor primitive (peek/next/accept/try_next/expect/next_unwrapped/discard/rewind) stays on the current line, moves the cursor by at most one (discard: to the line end, rewind: strictly backwards with a decreases measure) and changes nothing else - the measure that makes each scan over a line a single pass; next_line moves to the successor line or reports the end. The one-statement-per-call structure of run_next_statement is in unit interp_api when built.',
-  'note': 'Loops inside statement.rs (IF false-branch scan, DEF body skip) are read, not proved.',
+  'text': 'Partial proof: every token-cursor primitive (peek/next/accept/try_next/expect/next_unwrapped/discard/rewind) stays on the current line, moves the cursor by at most one (discard: to the line end, rewind: strictly backwards with a decreases measure) and changes nothing else - the measure that makes each scan over a line a single pass; next_line moves to the successor line or reports the end. run_next_statement / continue_evaluating / start_evaluating / evaluate_impl are loop-free with exactly one statement-evaluation call site on each path (syntactic census + Verus), and the IF false-branch scan and DEF body skip of the real statement.rs are single passes with a proved decreases measure (line length minus cursor).',
+  'note': 'The expression evaluator enters statements through an assumed temporary-borrow link (its body is proved in unit expressions); user-defined function calls are an assumed contract. READ and PRINT loops carry no termination measure.',
   'technique': 'Verus contracts with frame conditions on the cursor primitives; loop decreases',
  },
  'C10': {
@@ -77,7 +77,7 @@ CHECKS.update({
   'technique': 'Verus postcondition of set_numbered_line + exec-form lemmas',
  },
  'C16': {
-  'text': 'Proof for the control stacks: stack <= 32, loops <= 32 and "no two open loops for one variable" are part of the invariant preserved by every Program mutator; gosub/push_function_call at the cap return OUT OF MEMORY (STACK OVERFLOW) changing nothing; start_loop removes the same-named loop first, so re-entering a FOR via GOTO does not accumulate. Array caps and name-suffix typing are in the Kani units arrays/operators when built.',
+  'text': 'Proof for the control stacks: stack <= 32, loops <= 32 and "no two open loops for one variable" are part of the invariant preserved by every Program mutator; gosub/push_function_call at the cap return OUT OF MEMORY (STACK OVERFLOW) changing nothing; start_loop removes the same-named loop first, so re-entering a FOR via GOTO does not accumulate. Name-suffix typing: Variables::set/get (Verus, typed() invariant), the Arrays wrapper (Verus: implicit creation, DIM, typed cells) and the value/array kind rules on the real str functions (Kani, bounded name length); array sizing and addressing by Kani (bounded dimension count).',
   'note': 'remove_loop_with_name is assumed in Verus; end_loop (re-push of the removed loop) is read, not proved.',
   'technique': 'Verus invariant (caps) over Program mutators',
  },
